@@ -937,7 +937,8 @@ int ivw_pthread_spin_lock(pthread_spinlock_t *l) { return env_thr.spin_lock(l); 
 int ivw_pthread_spin_unlock(pthread_spinlock_t *l) { return env_thr.spin_unlock(l); }
 int ivw_pthread_spin_trylock(pthread_spinlock_t *l) { return pthread_spin_trylock(l); }
 int ivw_pthread_create(pthread_t *t, const pthread_attr_t *a, void *(*fn)(void *), void *arg) { return env_thr.create(t, a, fn, arg); }
-int ivw_pthread_join(pthread_t t, void **r) { return env_thr.join(t, r); }
+int env_joined_threads;
+int ivw_pthread_join(pthread_t t, void **r) { env_joined_threads++; return env_thr.join(t, r); }
 int ivw_pthread_detach(pthread_t t) { return env_thr.detach(t); }
 int ivw_pthread_once(pthread_once_t *o, void (*fn)(void)) { return pthread_once(o, fn); }
 int ivw_pthread_key_create(pthread_key_t *k, void (*d)(void *)) { return env_thr.key_create(k, d); }
